@@ -5,7 +5,8 @@
    Part 3: the compiler's output verifies ([compile_verifies]). *)
 From Coq Require Import List String Ascii Bool Arith NArith ZArith Lia.
 From Yae Require Import Base.Sexp Model.Ty Gen.Generated Model.Unify Model.Num Model.Lexer Model.Literal Model.Cst
-  Model.Check Model.CheckSpec Model.Val Model.Render Model.Builtins Model.Eval Model.EvalSpec Model.VM Model.Verifier.
+  Model.Check Model.CheckSpec Model.Val Model.Render Model.Builtins Model.Eval Model.EvalSpec Model.VM Model.Verifier
+  Proofs.ExprInd Proofs.C05Proofs.
 Import ListNotations.
 Local Open Scope nat_scope.
 Local Open Scope list_scope.
@@ -1050,3 +1051,617 @@ Proof.
     rewrite agree_repeat. cbn [andb Nat.leb]. unfold vnext. cbn [d_op d_size skipn Nat.eqb andb].
     rewrite pend_del_repeat. reflexivity.
 Qed.
+
+(* ---- the opcode bytes ---- *)
+Lemma decode_op_byte o : decode_op (op_byte o) = Some o.
+Proof. destruct o; vm_compute; reflexivity. Qed.
+
+(* ---- induction on annotated trees ---- *)
+Section AexprInd.
+  Variable P : aexpr -> Prop.
+  Hypothesis Hstr : forall v, P (AStr v).
+  Hypothesis Hnum : forall t n, P (ANum t n).
+  Hypothesis Htime : forall t, P (ATime t).
+  Hypothesis Hbool : forall b, P (ABool b).
+  Hypothesis Hlist : forall t es, Forall P es -> P (AList t es).
+  Hypothesis Hmap : forall t kvs, Forall (fun kv => P (fst kv) /\ P (snd kv)) kvs -> P (AMap t kvs).
+  Hypothesis Hobj : forall t fs, Forall (fun f => P (snd f)) fs -> P (AObj t fs).
+  Hypothesis Hident : forall c n, P (AIdent c n).
+  Hypothesis Hcall : forall c key idx fty callee args, P callee -> Forall P args -> P (ACall c key idx fty callee args).
+  Hypothesis Hsub : forall c vty v i, P v -> P i -> P (ASub c vty v i).
+  Hypothesis Hmember : forall c oty idx o n, P o -> P (AMember c oty idx o n).
+
+  Fixpoint aexpr_ind' (a : aexpr) : P a :=
+    match a with
+    | AStr v => Hstr v | ANum t n => Hnum t n | ATime t => Htime t | ABool b => Hbool b
+    | AList t es => Hlist t es ((fix go (l : list aexpr) : Forall P l :=
+                                  match l with [] => Forall_nil _ | x :: r => Forall_cons _ (aexpr_ind' x) (go r) end) es)
+    | AMap t kvs => Hmap t kvs ((fix go (l : list (aexpr * aexpr)) : Forall (fun kv => P (fst kv) /\ P (snd kv)) l :=
+                                   match l with
+                                   | [] => Forall_nil _
+                                   | x :: r => Forall_cons _ (conj (aexpr_ind' (fst x)) (aexpr_ind' (snd x))) (go r)
+                                   end) kvs)
+    | AObj t fs => Hobj t fs ((fix go (l : list (string * aexpr)) : Forall (fun f => P (snd f)) l :=
+                                 match l with [] => Forall_nil _ | x :: r => Forall_cons _ (aexpr_ind' (snd x)) (go r) end) fs)
+    | AIdent c n => Hident c n
+    | ACall c key idx fty callee args =>
+        Hcall c key idx fty callee args (aexpr_ind' callee)
+          ((fix go (l : list aexpr) : Forall P l :=
+              match l with [] => Forall_nil _ | x :: r => Forall_cons _ (aexpr_ind' x) (go r) end) args)
+    | ASub c vty v i => Hsub c vty v i (aexpr_ind' v) (aexpr_ind' i)
+    | AMember c oty idx o n => Hmember c oty idx o n (aexpr_ind' o)
+    end.
+End AexprInd.
+
+(* ---- the compiler, one level unfolded ---- *)
+Section CompileEq.
+Variable ops : numops.
+Variable orc : oracles.
+Variable fe : fenv.
+Notation cmp := (compile ops orc fe).
+
+Fixpoint clist (l : list aexpr) (st : cstate) : cres cstate :=
+  match l with [] => COk st | x :: r => let+ st1 := cmp x st in clist r st1 end.
+Fixpoint cmap (l : list (aexpr * aexpr)) (st : cstate) : cres cstate :=
+  match l with
+  | [] => COk st
+  | (k, v) :: r => let+ s1 := cmp k st in let+ s2 := cmp v s1 in cmap r s2
+  end.
+Fixpoint cobj (l : list (string * aexpr)) (st : cstate) : cres cstate :=
+  match l with [] => COk st | (_, v) :: r => let+ s1 := cmp v st in cobj r s1 end.
+Definition cbranch (br : aexpr + bool) (st : cstate) : cres cstate :=
+  match br with
+  | inl e => cmp e st
+  | inr b => emit_const (CVal (VBool b)) (emit_op OP_CONST st)
+  end.
+Definition ccond (c : aexpr) (t e : aexpr + bool) (st : cstate) : cres cstate :=
+  let+ st1 := cmp c st in
+  let st2 := emit_op OP_IF_TRUE st1 in
+  let off_false := cs_clen st2 in
+  let+ st3 := emit16 0 st2 in
+  let+ st4 := cbranch t st3 in
+  let st5 := emit_op OP_JUMP st4 in
+  let off_next := cs_clen st5 in
+  let+ st6 := emit16 0 st5 in
+  let branch_false := cs_clen st6 in
+  let+ st7 := cbranch e st6 in
+  let next := cs_clen st7 in
+  let+ st8 := patch16 off_false branch_false st7 in
+  patch16 off_next next st8.
+Definition cargs (sg : fsig) : list aexpr -> nat -> cstate -> cres cstate :=
+  fix go (l : list aexpr) (i : nat) (st : cstate) {struct l} : cres cstate :=
+  match l with
+  | [] => COk st
+  | x :: r =>
+      if s_lazy sg then
+        let+ sub := cmp x (cs_empty (cs_rpool st) (cs_plen st)) in
+        let body := rev (cs_rcode (emit_op OP_RETURN sub)) in
+        let st' := mkCS (cs_rcode st) (cs_clen st) (cs_rpool sub) (cs_plen sub) in
+        let+ st'' := emit_const (CThunk body (thunk_ret sg i)) (emit_op OP_CONST st') in
+        go r (S i) st''
+      else let+ st' := cmp x st in go r (S i) st'
+  end.
+
+Lemma compile_eq a st :
+  cmp a st =
+  match a with
+  | AStr v => emit_const (CVal (VStr v)) (emit_op OP_CONST st)
+  | ANum _ n => emit_const (CVal (VNum (lit_num ops n))) (emit_op OP_CONST st)
+  | ATime t => emit_const (CVal (VTime (o_strtotime orc (time_inner t)) 0)) (emit_op OP_CONST st)
+  | ABool b => emit_const (CVal (VBool b)) (emit_op OP_CONST st)
+  | AList t es =>
+      let+ st1 := clist es st in
+      let+ st2 := emit_const (CType t) (emit_op OP_NEW_LIST st1) in
+      emit16 (N.of_nat (len es)) st2
+  | AMap t kvs =>
+      let+ st1 := cmap kvs st in
+      let+ st2 := emit_const (CType t) (emit_op OP_NEW_MAP st1) in
+      emit16 (N.of_nat (len kvs)) st2
+  | AObj t fs =>
+      let+ st1 := cobj fs st in
+      emit_const (CType t) (emit_op OP_NEW_OBJ st1)
+  | AIdent _ name => emit_const (CName name) (emit_op OP_LOAD st)
+  | ACall _ key idx _ callee args =>
+      if String.eqb key "" then
+        let+ st1 := cmp callee st in
+        let+ st2 := clist args st1 in
+        emit8 (N.of_nat (len args)) (emit_op OP_DYNAMIC_CALL st2)
+      else
+        match lookup_fn fe key idx with
+        | None => CErr
+        | Some sg =>
+            match intrinsic_cbn sg, args with
+            | Some BIf, [c; t; e] => ccond c (inl t) (inl e) st
+            | Some BAnd, [x; y] => ccond x (inl y) (inr false) st
+            | Some BOr, [x; y] => ccond x (inr true) (inl y) st
+            | Some BNot, [x] => let+ st1 := cmp x st in COk (emit_op OP_LOGICAL_NOT st1)
+            | Some _, _ => CErr
+            | None, _ =>
+                let+ st1 := cargs sg args O st in
+                match intrinsic_cbv sg with
+                | Some o => COk (emit_op o st1)
+                | None =>
+                    let o := if s_lazy sg then OP_CALL_BY_NEED else OP_CALL_BY_VALUE in
+                    let+ st2 := emit_const (CFun sg) (emit_op o st1) in
+                    emit8 (N.of_nat (len args)) st2
+                end
+            end
+        end
+  | ASub _ vty v i =>
+      let+ st1 := cmp v st in
+      let+ st2 := cmp i st1 in
+      if ty_is_list vty then COk (emit_op OP_LIST_LOAD st2)
+      else if ty_is_map vty then COk (emit_op OP_MAP_LOAD st2)
+      else CErr
+  | AMember _ _ idx o name =>
+      let+ st1 := cmp o st in
+      let+ st2 := emit16 (N.of_nat idx) (emit_op OP_OBJ_LOAD st1) in
+      emit_const (CName name) st2
+  end.
+Proof. destruct a; reflexivity. Qed.
+End CompileEq.
+
+(* ---- what the checker guarantees about the annotated tree, as far as the compiler's layout is concerned ---- *)
+Inductive awf (fe : fenv) : aexpr -> Prop :=
+| W_str v : awf fe (AStr v)
+| W_num t n : awf fe (ANum t n)
+| W_time t : awf fe (ATime t)
+| W_bool b : awf fe (ABool b)
+| W_list t es : (exists e, t = TList e) -> Forall (awf fe) es -> awf fe (AList t es)
+| W_map t kvs : (exists k v, t = TMap k v) -> Forall (fun kv => awf fe (fst kv) /\ awf fe (snd kv)) kvs -> awf fe (AMap t kvs)
+| W_obj t tfs fs : t = TObj tfs -> len tfs = len fs -> Forall (fun f => awf fe (snd f)) fs -> awf fe (AObj t fs)
+| W_ident c n : awf fe (AIdent c n)
+| W_call c key idx fty callee args :
+    awf fe callee -> Forall (awf fe) args ->
+    (key <> ""%string -> forall sg, lookup_fn fe key idx = Some sg -> len (s_params sg) = len args) ->
+    awf fe (ACall c key idx fty callee args)
+| W_sub c vty v i : awf fe v -> awf fe i -> awf fe (ASub c vty v i)
+| W_member c oty idx o n : awf fe o -> awf fe (AMember c oty idx o n).
+
+Section CheckAwf.
+Variables (fe : fenv) (G : tenv) (fuel : nat) (fresh : N).
+Hypothesis Hfe : fenv_ok fe = true.
+Hypothesis HG : tenv_ok G = true.
+Hypothesis Hfr : fresh_ok fe fresh.
+
+Lemma resolve_go_idx pk args : forall sigs i key idx ps rt,
+  (forall sg, In sg sigs -> psig_ok fresh sg) -> forallb ty_ok args = true ->
+  resolve_go fuel fresh pk args sigs i = COk (key, idx, ps, rt) ->
+  key = pk /\ (i <= idx)%Z /\
+  exists sg, nth_error sigs (Z.to_nat (idx - i)) = Some sg /\ List.length (s_params sg) = List.length args.
+Proof.
+  induction sigs as [|sg r IH]; intros i key idx ps rt Hs Ha H; simpl in H; [discriminate H|].
+  destruct (try_infer fuel fresh sg args) as [o| |] eqn:ET; simpl in H; try discriminate H.
+  pose proof (Hs sg (or_introl Logic.eq_refl)) as Hsg.
+  apply (try_infer_ok fuel fresh sg args o Hsg Ha) in ET. subst o.
+  assert (Hlater : resolve_go fuel fresh pk args r (i + 1)%Z = COk (key, idx, ps, rt) ->
+                   key = pk /\ (i <= idx)%Z /\
+                   exists sg', nth_error (sg :: r) (Z.to_nat (idx - i)) = Some sg' /\
+                               List.length (s_params sg') = List.length args).
+  { intros H'. destruct (IH (i + 1)%Z key idx ps rt (fun sg' Hin => Hs sg' (or_intror Hin)) Ha H') as (E1 & E2 & sg' & E3 & E4).
+    split; [exact E1|]. split; [lia|]. exists sg'. split; [|exact E4].
+    replace (Z.to_nat (idx - i)) with (S (Z.to_nat (idx - (i + 1)))) by lia. exact E3. }
+  destruct (spec_opt fresh sg args) as [[ps' rt']|] eqn:ES; [|auto].
+  destruct (params_match ps' args) eqn:EM; [|auto].
+  inversion H; subst. split; [reflexivity|]. split; [lia|].
+  exists sg. rewrite Z.sub_diag. split; [reflexivity|].
+  unfold spec_opt, infer_spec in ES.
+  destruct (Nat.eqb (List.length args) (List.length (s_params sg))) eqn:El; [|discriminate ES].
+  apply Nat.eqb_eq in El. auto.
+Qed.
+
+Lemma resolve_arity name args key idx ps rt sg :
+  forallb ty_ok args = true ->
+  resolve fe fuel fresh name args = COk (key, idx, ps, rt) -> params_match ps args = true ->
+  lookup_fn fe key idx = Some sg -> List.length (s_params sg) = List.length args.
+Proof.
+  intros Ha H HM HL. rewrite resolve_unfold in H.
+  destruct (assoc (mono_key name args) (f_mono fe)) as [s|] eqn:Em.
+  - inversion H; subst. unfold lookup_fn in HL. change (Z.ltb (-1) 0) with true in HL. cbv iota in HL.
+    rewrite Em in HL. inversion HL; subst.
+    rewrite params_match_eq in HM. apply eqb_list_length in HM. exact HM.
+  - destruct (assoc (poly_key name (List.length args)) (f_poly fe)) as [sigs|] eqn:Ep; [|discriminate H].
+    destruct (resolve_go_idx (poly_key name (List.length args)) args sigs 0%Z key idx ps rt) as (E1 & E2 & sg' & E3 & E4); auto.
+    { intros sg' Hin. eapply psig_ok_intro; eauto. }
+    subst key. unfold lookup_fn in HL.
+    destruct (Z.ltb idx 0) eqn:El; [apply Z.ltb_lt in El; lia|].
+    rewrite Ep in HL. rewrite Z.sub_0_r in E3. rewrite E3 in HL. inversion HL; subst. exact E4.
+Qed.
+
+Lemma Forall2_awf {X Y} (f : X -> cres Y) (P : X -> Prop) (Q : Y -> Prop) l ys :
+  Forall P l -> (forall x y, P x -> f x = COk y -> Q y) -> cmapM f l = COk ys -> Forall Q ys.
+Proof.
+  intros HP HPQ H. apply cmapM_Forall2 in H. induction H as [|x y l ys Hxy H IH]; [constructor|].
+  inversion HP; subst. constructor; eauto.
+Qed.
+
+Lemma check_awf : forall e a T, check fe G fuel fresh e = COk (a, T) -> awf fe a.
+Proof.
+  induction e using expr_ind'; intros a T HC.
+  - simpl in HC. destruct (str_value t); inversion HC; constructor.
+  - simpl in HC. destruct (num_parse t); inversion HC; constructor.
+  - simpl in HC. inversion HC; constructor.
+  - simpl in HC. inversion HC; constructor.
+  - (* list *)
+    destruct es as [|e0 rest]; simpl in HC.
+    + inversion HC; subst. constructor; [eexists; reflexivity|constructor].
+    + inversion H as [|? ? He0 Hrest]; subst.
+      destruct (check fe G fuel fresh e0) as [[a0 t0]| |] eqn:E0; simpl in HC; try discriminate HC.
+      match type of HC with context [cmapM ?F rest] => destruct (cmapM F rest) as [ars| |] eqn:ER end;
+        simpl in HC; try discriminate HC.
+      inversion HC; subst. constructor; [eexists; reflexivity|].
+      constructor; [eapply He0; eauto|].
+      eapply Forall2_awf; [exact Hrest| |exact ER].
+      intros x y Hx Hxy. cbv beta in Hxy.
+      destruct (check fe G fuel fresh x) as [[ax tx]| |] eqn:Ex; simpl in Hxy; try discriminate Hxy.
+      destruct (type_assert t0 tx); simpl in Hxy; try discriminate Hxy. inversion Hxy; subst. eapply Hx; eauto.
+  - (* map *)
+    destruct kvs as [|[k0 v0] rest]; simpl in HC.
+    + inversion HC; subst. constructor; [eexists _, _; reflexivity|constructor].
+    + inversion H as [|? ? [Hk0 Hv0] Hrest]; subst. cbn [fst snd] in *.
+      destruct (check fe G fuel fresh k0) as [[ak0 kt]| |] eqn:E0; simpl in HC; try discriminate HC.
+      destruct (negb (is_primitive kt)); [discriminate HC|].
+      destruct (check fe G fuel fresh v0) as [[av0 vt]| |] eqn:E1; simpl in HC; try discriminate HC.
+      match type of HC with context [cmapM ?F rest] => destruct (cmapM F rest) as [ars| |] eqn:ER end;
+        simpl in HC; try discriminate HC.
+      inversion HC; subst. constructor; [eexists _, _; reflexivity|].
+      constructor; [cbn [fst snd]; split; [eapply Hk0|eapply Hv0]; eauto|].
+      eapply Forall2_awf; [exact Hrest| |exact ER].
+      intros x y [Hx1 Hx2] Hxy. cbv beta in Hxy.
+      destruct (check fe G fuel fresh (fst x)) as [[ax tx]| |] eqn:Ex; simpl in Hxy; try discriminate Hxy.
+      destruct (type_assert kt tx); simpl in Hxy; try discriminate Hxy.
+      destruct (check fe G fuel fresh (snd x)) as [[ax2 tx2]| |] eqn:Ex2; simpl in Hxy; try discriminate Hxy.
+      destruct (type_assert vt tx2); simpl in Hxy; try discriminate Hxy.
+      inversion Hxy; subst. cbn [fst snd]. split; [eapply Hx1|eapply Hx2]; eauto.
+  - (* obj *)
+    simpl in HC.
+    match type of HC with context [cmapM ?F fs] => destruct (cmapM F fs) as [afs| |] eqn:ER end;
+      simpl in HC; try discriminate HC.
+    match type of HC with context [if ?c then _ else _] => destruct c end; [discriminate HC|].
+    inversion HC; subst.
+    eapply W_obj; [reflexivity|unfold len; rewrite !map_length; reflexivity|].
+    apply Forall_map. cbn [snd].
+    eapply Forall2_awf; [exact H| |exact ER].
+    intros x y Hx Hxy. cbv beta in Hxy.
+    destruct (check fe G fuel fresh (snd x)) as [[ax tx]| |] eqn:Ex; simpl in Hxy; try discriminate Hxy.
+    inversion Hxy; subst. cbn [fst snd]. eapply Hx; eauto.
+  - (* ident *)
+    simpl in HC. destruct (reserved (rstr n)); [discriminate HC|].
+    destruct (assoc (rstr n) G); inversion HC; constructor.
+  - (* call *)
+    assert (Hargs : forall aargs, cmapM (check fe G fuel fresh) args = COk aargs -> Forall (awf fe) (map fst aargs)).
+    { intros aargs HA. apply Forall_map.
+      eapply Forall2_awf; [exact H| |exact HA].
+      intros x [ax tx] Hx Hxy. cbn [fst]. eapply Hx; eauto. }
+    destruct (is_ident e) eqn:Eid.
+    + destruct e as [ | | | | | | | pn n | | | | | | | ]; try discriminate Eid. rewrite check_call_ident in HC.
+      destruct (cmapM (check fe G fuel fresh) args) as [aargs| |] eqn:EA; simpl in HC; try discriminate HC.
+      destruct (resolve fe fuel fresh (rstr n) (map snd aargs)) as [[[[key idx] ps] rt]| |] eqn:ER; simpl in HC; try discriminate HC.
+      destruct (params_match ps (map snd aargs)) eqn:EM; [|discriminate HC].
+      inversion HC; subst. constructor; [constructor|auto|].
+      intros _ sg HL. unfold len. rewrite map_length. rewrite <- (map_length snd aargs).
+      eapply resolve_arity; eauto.
+      eapply (args_inv fe G fuel fresh); [|exact EA].
+      apply Forall_forall. intros x _. apply check_inv; auto.
+    + rewrite check_call_other in HC by exact Eid.
+      destruct (cmapM (check fe G fuel fresh) args) as [aargs| |] eqn:EA; simpl in HC; try discriminate HC.
+      destruct (check fe G fuel fresh e) as [[ac ft]| |] eqn:EC; simpl in HC; try discriminate HC.
+      destruct ft; try discriminate HC.
+      match type of HC with context [try_infer ?a ?b ?c ?d] => destruct (try_infer a b c d) as [[[ps' rt']|]| |] end;
+        simpl in HC; try discriminate HC.
+      match type of HC with context [if ?c then _ else _] => destruct c end; [|discriminate HC].
+      inversion HC; subst. constructor; [eapply IHe; eauto|auto|].
+      intros Hk. exfalso. apply Hk. reflexivity.
+  - (* sub *)
+    simpl in HC.
+    destruct (check fe G fuel fresh e1) as [[av vt]| |] eqn:E1; simpl in HC; try discriminate HC.
+    destruct vt; try discriminate HC;
+      destruct (check fe G fuel fresh e2) as [[ai it]| |] eqn:E2; simpl in HC; try discriminate HC;
+      match type of HC with context [type_assert ?x ?y] => destruct (type_assert x y) end; simpl in HC; try discriminate HC;
+      inversion HC; subst; constructor; eauto.
+  - (* member *)
+    simpl in HC.
+    destruct (check fe G fuel fresh e) as [[ao ot]| |] eqn:E1; simpl in HC; try discriminate HC.
+    destruct ot; try discriminate HC.
+    destruct (assoc (rstr n) fs); [|discriminate HC]. destruct (index_of (rstr n) fs); [|discriminate HC].
+    inversion HC; subst. constructor. eauto.
+  - discriminate HC.
+  - discriminate HC.
+  - discriminate HC.
+  - discriminate HC.
+Qed.
+End CheckAwf.
+
+(* ---- compiler states ---- *)
+Definition code_of (st : cstate) : list N := rev (cs_rcode st).
+Definition pool_of (st : cstate) : list const := rev (cs_rpool st).
+Definition cs_wf (st : cstate) : Prop :=
+  cs_clen st = N.of_nat (len (cs_rcode st)) /\ cs_plen st = N.of_nat (len (cs_rpool st)).
+Definition pool_ext (p q : list const) : Prop := exists s, q = p ++ s.
+
+Lemma pool_ext_refl p : pool_ext p p.
+Proof. exists []. rewrite app_nil_r. reflexivity. Qed.
+Lemma pool_ext_app p n q : pool_ext (p ++ n) q -> pool_ext p q.
+Proof. intros [s E]. exists (n ++ s). rewrite E, app_assoc. reflexivity. Qed.
+Lemma pool_ext_nth p q i c : pool_ext p q -> nth_error p i = Some c -> nth_error q i = Some c.
+Proof.
+  intros [s E] H. subst q. rewrite nth_error_app1; auto. apply nth_error_Some. congruence.
+Qed.
+
+Lemma len_rev {X} (l : list X) : len (rev l) = len l.
+Proof. unfold len. apply rev_length. Qed.
+Lemma len_code_of st : len (code_of st) = len (cs_rcode st).
+Proof. apply len_rev. Qed.
+
+Lemma code_emit_byte b st : code_of (emit_byte b st) = code_of st ++ [b].
+Proof. reflexivity. Qed.
+Lemma pool_emit_byte b st : pool_of (emit_byte b st) = pool_of st.
+Proof. reflexivity. Qed.
+Lemma wf_emit_byte b st : cs_wf st -> cs_wf (emit_byte b st).
+Proof. intros [H1 H2]. split; cbn [emit_byte cs_clen cs_rcode cs_plen cs_rpool]; auto. rewrite H1. unfold len. cbn [List.length]. lia. Qed.
+
+Lemma emit16_spec n st st' : emit16 n st = COk st' ->
+  st' = emit_byte (n mod 256) (emit_byte (n / 256) st) /\ (n / 256 * 256 + n mod 256 = n)%N.
+Proof.
+  unfold emit16. destruct (N.leb n 65535); [|discriminate]. intros H. inversion H. split; auto.
+  rewrite N.mul_comm. symmetry. apply N.div_mod. discriminate.
+Qed.
+
+Lemma emit8_spec n st st' : emit8 n st = COk st' -> st' = emit_byte n st.
+Proof. unfold emit8. destruct (N.leb n 255); [|discriminate]. intros H. inversion H. auto. Qed.
+
+Lemma emit_const_spec c st st' : cs_wf st -> emit_const c st = COk st' ->
+  exists hi lo,
+    code_of st' = code_of st ++ [hi; lo] /\ pool_of st' = pool_of st ++ [c] /\ cs_wf st' /\
+    nth_error (pool_of st') (N.to_nat (hi * 256 + lo)) = Some c.
+Proof.
+  intros [W1 W2] H. unfold emit_const in H. apply emit16_spec in H as [H E].
+  exists (cs_plen st / 256)%N, (cs_plen st mod 256)%N. subst st'.
+  split; [unfold code_of; cbn [emit_byte cs_rcode rev]; rewrite <- app_assoc; reflexivity|].
+  split; [reflexivity|]. split.
+  - apply wf_emit_byte, wf_emit_byte. split; cbn [cs_clen cs_rcode cs_plen cs_rpool]; auto.
+    rewrite W2. unfold len. cbn [List.length]. lia.
+  - rewrite E. unfold pool_of. cbn [emit_byte cs_rpool rev]. rewrite W2.
+    rewrite Nat2N.id. rewrite nth_error_app2 by (rewrite len_rev; unfold len; lia).
+    rewrite len_rev. unfold len. rewrite Nat.sub_diag. reflexivity.
+Qed.
+
+(* compiled fragments: [st'] extends [st] by a fragment taking depth a to depth b under every later pool *)
+Definition CG (ne : bool) (a b : nat) (st st' : cstate) : Prop :=
+  cs_wf st' /\ exists frag newp,
+    code_of st' = code_of st ++ frag /\ pool_of st' = pool_of st ++ newp /\
+    (ne = true -> frag <> []) /\
+    forall pool, pool_ext (pool_of st') pool ->
+      FR pool (len (code_of st)) frag a b /\ (forall body rt, In (CThunk body rt) newp -> verify pool body = true).
+
+Lemma CG_refl a st : cs_wf st -> CG false a a st st.
+Proof.
+  intros W. split; auto. exists [], []. rewrite !app_nil_r. repeat split; try discriminate.
+  - apply FR_nil.
+  - intros body rt [].
+Qed.
+
+Lemma CG_trans ne a b c st st1 st2 : CG ne a b st st1 -> CG true b c st1 st2 -> CG true a c st st2.
+Proof.
+  intros (W1 & f1 & n1 & C1 & P1 & N1 & H1) (W2 & f2 & n2 & C2 & P2 & N2 & H2).
+  split; auto. exists (f1 ++ f2), (n1 ++ n2).
+  rewrite C2, C1, P2, P1, <- !app_assoc. split; [reflexivity|]. split; [reflexivity|]. split.
+  - intros _ E. apply app_eq_nil in E as [_ E]. apply N2; auto.
+  - intros pool H.
+    assert (Hx2 : pool_ext (pool_of st2) pool) by (rewrite P2, P1, <- app_assoc; exact H).
+    assert (Hx1 : pool_ext (pool_of st1) pool) by (rewrite P2 in Hx2; eapply pool_ext_app; eauto).
+    destruct (H1 pool Hx1) as [F1 T1]. destruct (H2 pool Hx2) as [F2 T2]. split.
+    + apply (FR_app pool _ f1 f2 a b c); [apply N2; auto|exact F1|].
+      rewrite <- len_app, <- C1. exact F2.
+    + intros body rt Hin. apply in_app_or in Hin as [Hin|Hin]; eauto.
+Qed.
+
+Lemma CG_frame ne a b c st st' : CG ne a b st st' -> CG ne (a + c) (b + c) st st'.
+Proof.
+  intros (W1 & f1 & n1 & C1 & P1 & N1 & H1). split; auto. exists f1, n1. repeat split; auto.
+  - apply FR_frame. apply H1; auto.
+  - apply H1; auto.
+Qed.
+
+Lemma CG_weaken a b st st' : CG true a b st st' -> CG false a b st st'.
+Proof.
+  intros (W1 & f1 & n1 & C1 & P1 & N1 & H1). split; auto. exists f1, n1. repeat split; auto; try discriminate; apply H1; auto.
+Qed.
+
+(* a single emitted instruction *)
+Lemma CG_ins a b st st' ins newp :
+  cs_wf st' -> code_of st' = code_of st ++ ins -> pool_of st' = pool_of st ++ newp -> ins <> [] ->
+  (forall pool, pool_ext (pool_of st') pool -> FR pool (len (code_of st)) ins a b) ->
+  (forall pool body rt, pool_ext (pool_of st') pool -> In (CThunk body rt) newp -> verify pool body = true) ->
+  CG true a b st st'.
+Proof.
+  intros W C P N H1 H2. split; auto. exists ins, newp. repeat split; auto. intros; eapply H2; eauto.
+Qed.
+
+(* ---- instruction shapes ---- *)
+Definition is_ctl (o : opcode) : bool := match o with OP_RETURN | OP_JUMP | OP_IF_TRUE => true | _ => false end.
+Lemma is_ctl_false o : is_ctl o = false -> o <> OP_RETURN /\ o <> OP_JUMP /\ o <> OP_IF_TRUE.
+Proof. destruct o; try discriminate; repeat split; discriminate. Qed.
+
+Lemma FR_shape pool pc o opnds dec pops pushes a b :
+  (forall k, decode_go (operands o) (opnds ++ k) (mkDec o None None None None 1) = Some dec) ->
+  d_size dec = S (len opnds) -> d_op dec = o ->
+  effect pool dec = Some (pops, pushes) -> pops <= a -> b = a - pops + pushes -> is_ctl o = false ->
+  FR pool pc (op_byte o :: opnds) a b.
+Proof.
+  intros Hd Hs Ho He Hp Hb Hc. destruct (is_ctl_false _ Hc) as (C1 & C2 & C3).
+  eapply FR_instr with (dec := dec); eauto; try discriminate; try (rewrite Ho; assumption).
+  intros k. cbn [app]. rewrite decode_cons, decode_op_byte. apply Hd.
+Qed.
+
+(* emit_const c (emit_op o st): an instruction with one constant operand *)
+Lemma CG_opc o c st st' a b pops pushes :
+  cs_wf st -> emit_const c (emit_op o st) = COk st' -> operands o = [Oc] -> is_ctl o = false ->
+  (forall pool v, nth_error pool (N.to_nat v) = Some c ->
+                  effect pool (mkDec o (Some v) None None None 3) = Some (pops, pushes)) ->
+  pops <= a -> b = a - pops + pushes ->
+  (forall pool body rt, pool_ext (pool_of st') pool -> c = CThunk body rt -> verify pool body = true) ->
+  CG true a b st st'.
+Proof.
+  intros W H Hops Hctl Heff Hp Hb Hth.
+  destruct (emit_const_spec _ _ _ (wf_emit_byte _ _ W) H) as (hi & lo & C & P & W' & Hn).
+  unfold emit_op in C, P. rewrite code_emit_byte in C. rewrite pool_emit_byte in P. rewrite <- app_assoc in C.
+  eapply CG_ins; eauto; try discriminate.
+  - intros pool Hx. cbn [app].
+    eapply FR_shape with (dec := mkDec o (Some (hi * 256 + lo)%N) None None None 3); eauto.
+    + intros k. rewrite Hops. reflexivity.
+    + apply Heff. eapply pool_ext_nth; eauto.
+  - intros pool body rt Hx [E|[]]. eapply Hth; eauto.
+Qed.
+
+Lemma CG_op0 o st a b pops pushes :
+  cs_wf st -> operands o = [] -> is_ctl o = false ->
+  (forall pool, effect pool (mkDec o None None None None 1) = Some (pops, pushes)) ->
+  pops <= a -> b = a - pops + pushes ->
+  CG true a b st (emit_op o st).
+Proof.
+  intros W Hops Hctl Heff Hp Hb.
+  eapply CG_ins with (ins := [op_byte o]) (newp := []); try discriminate.
+  - apply wf_emit_byte; auto.
+  - reflexivity.
+  - unfold emit_op. rewrite pool_emit_byte, app_nil_r. reflexivity.
+  - intros pool Hx.
+    eapply FR_shape with (opnds := []) (dec := mkDec o None None None None 1); eauto.
+    intros k. rewrite Hops. reflexivity.
+  - intros pool body rt _ [].
+Qed.
+
+(* ---- the table of strict intrinsics ---- *)
+Definition seffect (o : opcode) : option (nat * nat) := effect [] (mkDec o None None None None 1).
+Lemma seffect_eq pool o : operands o = [] -> effect pool (mkDec o None None None None 1) = seffect o.
+Proof. destruct o; try discriminate; reflexivity. Qed.
+
+Definition cbv_row_ok (x : string * list ty * string) : bool :=
+  match find (fun o => String.eqb (op_name o) (snd x)) all_ops with
+  | Some o =>
+      match operands o, seffect o with
+      | [], Some (pops, pushes) =>
+          Nat.leb pops (List.length (snd (fst x))) && Nat.eqb (List.length (snd (fst x)) - pops + pushes) 1 && negb (is_ctl o)
+      | _, _ => false
+      end
+  | None => true
+  end.
+Lemma cbv_table_ok : forallb cbv_row_ok intrinsics_cbv = true.
+Proof. vm_compute. reflexivity. Qed.
+
+Lemma ty_eqb_fun_len n1 p1 r1 n2 p2 r2 : ty_eqb (TFun n1 p1 r1) (TFun n2 p2 r2) = true -> List.length p1 = List.length p2.
+Proof.
+  cbn [ty_eqb]. intros H. apply andb_prop in H as [H _]. revert p2 H.
+  induction p1 as [|x r IH]; intros [|y s] H; try discriminate; [reflexivity|].
+  apply andb_prop in H as [_ H]. cbn [List.length]. f_equal. apply IH. exact H.
+Qed.
+
+Lemma intrinsic_cbv_spec sg o : intrinsic_cbv sg = Some o ->
+  operands o = [] /\ is_ctl o = false /\
+  exists pops pushes, seffect o = Some (pops, pushes) /\ pops <= len (s_params sg) /\ len (s_params sg) - pops + pushes = 1.
+Proof.
+  unfold intrinsic_cbv. destruct (sig_is_builtin sg); [|discriminate].
+  destruct (find (fun x => same_fn (fst (fst x)) (snd (fst x)) sg) intrinsics_cbv) as [x|] eqn:Ef; [|discriminate].
+  intros Ho. apply find_some in Ef as [Hin Hs].
+  pose proof cbv_table_ok as HT. rewrite forallb_forall in HT. specialize (HT x Hin).
+  unfold cbv_row_ok in HT. rewrite Ho in HT.
+  unfold same_fn in Hs. apply andb_prop in Hs as [_ Hs]. apply ty_eqb_fun_len in Hs.
+  destruct (operands o); [|discriminate]. destruct (seffect o) as [[pops pushes]|]; [|discriminate].
+  apply andb_prop in HT as [HT H3]. apply andb_prop in HT as [H1 H2].
+  apply Nat.leb_le in H1. apply Nat.eqb_eq in H2. apply negb_true_iff in H3.
+  split; auto. split; auto. exists pops, pushes. unfold len. rewrite <- Hs. auto.
+Qed.
+
+(* ---- patching ---- *)
+Lemma set_nth_app (l1 : list N) x l2 y : set_nth (l1 ++ x :: l2) (List.length l1) y = l1 ++ y :: l2.
+Proof. induction l1; cbn [app List.length set_nth]; [reflexivity|]. f_equal. exact IHl1. Qed.
+Lemma set_nth_app1 (l1 : list N) x y l2 z : set_nth (l1 ++ x :: y :: l2) (List.length l1 + 1) z = l1 ++ x :: z :: l2.
+Proof.
+  induction l1; cbn [app List.length set_nth Nat.add]; [reflexivity|]. f_equal. exact IHl1.
+Qed.
+
+Lemma patch16_spec off v st st' pre a b post :
+  patch16 off v st = COk st' -> code_of st = pre ++ a :: b :: post -> N.to_nat off = len pre ->
+  code_of st' = pre ++ (v / 256)%N :: (v mod 256)%N :: post /\ pool_of st' = pool_of st /\
+  (cs_wf st -> cs_wf st') /\ (v / 256 * 256 + v mod 256 = v)%N.
+Proof.
+  unfold patch16. destruct (N.leb v 65535); [|discriminate]. intros H Hc Ho. inversion H; subst st'; clear H.
+  unfold code_of in *. cbn [cs_rcode cs_rpool]. rewrite rev_involutive. rewrite Hc, Ho. unfold len.
+  rewrite set_nth_app. rewrite set_nth_app1.
+  split; [reflexivity|]. split; [reflexivity|]. split.
+  - intros [W1 W2]. split; cbn [cs_clen cs_rcode cs_plen cs_rpool]; auto.
+    rewrite W1. f_equal. rewrite len_rev. rewrite <- (len_rev (cs_rcode st)), Hc. unfold len. rewrite !app_length. reflexivity.
+  - rewrite N.mul_comm. symmetry. apply N.div_mod. discriminate.
+Qed.
+
+Section Compiles.
+Variable ops : numops.
+Variable orc : oracles.
+Variable fe : fenv.
+Notation cmp := (compile ops orc fe).
+
+Definition cstmt (a : aexpr) : Prop :=
+  awf fe a -> forall st st', cs_wf st -> cmp a st = COk st' -> CG true 0 1 st st'.
+
+Definition nonempty {X} (l : list X) : bool := match l with [] => false | _ => true end.
+
+Lemma CG_cast ne a b a' b' st st' : CG ne a b st st' -> a = a' -> b = b' -> CG ne a' b' st st'.
+Proof. intros H -> ->. exact H. Qed.
+
+Lemma CG_wf ne a b st st' : CG ne a b st st' -> cs_wf st'.
+Proof. intros [W _]. exact W. Qed.
+
+(* a sequence of fragments each pushing one value *)
+Lemma seq_CG {X} (step : X -> cstate -> cres cstate) (go : list X -> cstate -> cres cstate) (k : nat) :
+  (forall st, go [] st = COk st) ->
+  (forall x r st, go (x :: r) st = let+ st1 := step x st in go r st1) ->
+  forall l,
+  Forall (fun x => forall st st' a, cs_wf st -> step x st = COk st' -> CG true a (k + a) st st') l ->
+  forall st st' a, cs_wf st -> go l st = COk st' -> CG (nonempty l) a (k * len l + a) st st'.
+Proof.
+  intros Hnil Hcons. induction l as [|x r IH]; intros HF st st' a W H.
+  - rewrite Hnil in H. inversion H; subst. rewrite Nat.mul_0_r. apply CG_refl; auto.
+  - rewrite Hcons in H. inversion HF as [|? ? Hx Hr]; subst.
+    destruct (step x st) as [st1| |] eqn:E1; cbn [cbind] in H; try discriminate.
+    pose proof (Hx _ _ a W E1) as G1.
+    pose proof (IH Hr _ _ (k + a) (CG_wf _ _ _ _ _ G1) H) as G2.
+    destruct r as [|y r'].
+    + rewrite Hnil in H. inversion H; subst. cbn [nonempty]. eapply CG_cast; [exact G1|reflexivity|].
+      unfold len; cbn [List.length]; lia.
+    + cbn [nonempty] in *. eapply CG_cast; [eapply CG_trans; [exact G1|exact G2]|reflexivity|].
+      unfold len; cbn [List.length]; lia.
+Qed.
+
+Lemma clist_CG l : Forall cstmt l -> Forall (awf fe) l ->
+  forall st st' a, cs_wf st -> clist ops orc fe l st = COk st' -> CG (nonempty l) a (len l + a) st st'.
+Proof.
+  intros HC HW st st' a W H.
+  eapply CG_cast; [eapply (seq_CG (fun x => cmp x) (clist ops orc fe) 1); try reflexivity; eauto|reflexivity|lia].
+  clear - HC HW. induction HC as [|x r Hx Hr IH]; [constructor|]. inversion HW; subst. constructor; auto.
+  intros st st' a W H. eapply CG_cast; [apply (CG_frame true 0 1 a)|reflexivity|reflexivity]. apply Hx; auto.
+Qed.
+
+Lemma cobj_CG l : Forall (fun f => cstmt (snd f)) l -> Forall (fun f => awf fe (snd f)) l ->
+  forall st st' a, cs_wf st -> cobj ops orc fe l st = COk st' -> CG (nonempty l) a (len l + a) st st'.
+Proof.
+  intros HC HW st st' a W H.
+  eapply CG_cast; [eapply (seq_CG (fun x => cmp (snd x)) (cobj ops orc fe) 1); try reflexivity; eauto|reflexivity|lia].
+  - intros [n x] r st0. reflexivity.
+  - clear - HC HW. induction HC as [|x r Hx Hr IH]; [constructor|]. inversion HW; subst. constructor; auto.
+    intros st st' a W H. eapply CG_cast; [apply (CG_frame true 0 1 a)|reflexivity|reflexivity]. apply Hx; auto.
+Qed.
+
+Lemma cmap_CG l : Forall (fun kv => cstmt (fst kv) /\ cstmt (snd kv)) l ->
+  Forall (fun kv => awf fe (fst kv) /\ awf fe (snd kv)) l ->
+  forall st st' a, cs_wf st -> cmap ops orc fe l st = COk st' -> CG (nonempty l) a (2 * len l + a) st st'.
+Proof.
+  intros HC HW st st' a W H.
+  eapply (seq_CG (fun x st => let+ s1 := cmp (fst x) st in cmp (snd x) s1) (cmap ops orc fe) 2); try reflexivity; eauto.
+  - intros [k v] r st0. cbn [cmap fst snd]. destruct (cmp k st0); reflexivity.
+  - clear - HC HW. induction HC as [|x r [Hx1 Hx2] Hr IH]; [constructor|]. inversion HW as [|? ? [W1 W2] Wr]; subst. constructor; auto.
+    intros st st' a W H.
+    destruct (cmp (fst x) st) as [s1| |] eqn:E1; cbn [cbind] in H; try discriminate.
+    pose proof (Hx1 W1 _ _ W E1) as G1. pose proof (Hx2 W2 _ _ (CG_wf _ _ _ _ _ G1) H) as G2.
+    eapply CG_cast; [eapply CG_trans; [apply (CG_frame true 0 1 a); exact G1|apply (CG_frame true 0 1 (1 + a)); exact G2]|reflexivity|lia].
+Qed.
+End Compiles.
